@@ -117,7 +117,7 @@ PROPS = {
     "C03": {
         "property_module": "AutosarVerif.Properties.C03",
         "modules": ["AutosarVerif.Properties.C03"],
-        "closure": ['AutosarVerif.Properties.C03', 'AutosarVerif.Lemmas.World', 'AutosarVerif.Lemmas.WorldOps', 'AutosarVerif.Lemmas.WfOps', 'AutosarVerif.Lemmas.Reachable', 'AutosarVerif.Lemmas.FilesOps2', 'AutosarVerif.Lemmas.FileOps', 'AutosarVerif.Lemmas.Compat'],
+        "closure": ['AutosarVerif.Properties.C03', 'AutosarVerif.Lemmas.World', 'AutosarVerif.Lemmas.WorldOps', 'AutosarVerif.Lemmas.WfOps', 'AutosarVerif.Lemmas.Reachable', 'AutosarVerif.Lemmas.FilesOps2', 'AutosarVerif.Lemmas.FileOps', 'AutosarVerif.Lemmas.Compat', 'AutosarVerif.Lemmas.IndexReach', 'AutosarVerif.Lemmas.IndexInv'],
         "scenario": "world",
         "scenario_args": ['--prop', 'C03'],
         "rule": 'operation histories on the real library (PROTOCOL.md): `reset`, a template build (packages from the name universe a a1 a10 a1b a2 pkg1 pkg10 b, nested packages, ELEMENTS with several kinds, mixed content, references to existing / dangling / future paths), then 20-60 (thorough up to 200) weighted random requests with mostly-valid and deliberately invalid arguments (stale handles, wrong kinds, bad positions, duplicates, descendants as destination), `dump` after every state-changing request; kinds basic / sort / copy / files. Every request is answered by the real library and by the Lean world model and compared verbatim (dumps include every parent field, attribute, value, comment, local file set, the whole path index and every key of the reverse reference map via hook H1); a history is cut at the first request kind the model does not cover (file-set operations, moves between models) — counted in coverage.correspondence. The direct oracle of the property is evaluated on the real library after every request; failing histories are shrunk. Non-trivial = distinct request line.' + " Oracle: " + 'parent/position/model of every reachable element, model-/element-/file-scoped DFS iterators with and without depth limit against the structural preorder, probes through every stale handle.',
@@ -129,7 +129,7 @@ PROPS = {
     "C04": {
         "property_module": "AutosarVerif.Properties.C04",
         "modules": ["AutosarVerif.Properties.C04"],
-        "closure": ['AutosarVerif.Properties.C04', 'AutosarVerif.Lemmas.World', 'AutosarVerif.Lemmas.WorldOps'],
+        "closure": ['AutosarVerif.Properties.C04', 'AutosarVerif.Lemmas.World', 'AutosarVerif.Lemmas.WorldOps', 'AutosarVerif.Lemmas.IndexDefs', 'AutosarVerif.Lemmas.IndexTree', 'AutosarVerif.Lemmas.IdxFix', 'AutosarVerif.Lemmas.RemoveInternal', 'AutosarVerif.Lemmas.RangeSn', 'AutosarVerif.Lemmas.RenameEntries', 'AutosarVerif.Lemmas.IndexInv', 'AutosarVerif.Lemmas.IndexOps', 'AutosarVerif.Lemmas.IndexOps2', 'AutosarVerif.Lemmas.IndexOps3', 'AutosarVerif.Lemmas.IndexFileOps', 'AutosarVerif.Lemmas.IndexCData', 'AutosarVerif.Lemmas.IndexReach', 'AutosarVerif.Lemmas.IndexWitness', 'AutosarVerif.Lemmas.IndexBridge', 'AutosarVerif.Lemmas.NameWfCheck', 'AutosarVerif.Lemmas.NameWfReal'],
         "scenario": "world",
         "scenario_args": ['--prop', 'C04'],
         "rule": 'operation histories on the real library (PROTOCOL.md): `reset`, a template build (packages from the name universe a a1 a10 a1b a2 pkg1 pkg10 b, nested packages, ELEMENTS with several kinds, mixed content, references to existing / dangling / future paths), then 20-60 (thorough up to 200) weighted random requests with mostly-valid and deliberately invalid arguments (stale handles, wrong kinds, bad positions, duplicates, descendants as destination), `dump` after every state-changing request; kinds basic / sort / copy / files. Every request is answered by the real library and by the Lean world model and compared verbatim (dumps include every parent field, attribute, value, comment, local file set, the whole path index and every key of the reverse reference map via hook H1); a history is cut at the first request kind the model does not cover (file-set operations, moves between models) — counted in coverage.correspondence. The direct oracle of the property is evaluated on the real library after every request; failing histories are shrunk. Non-trivial = distinct request line.' + " Oracle: " + "index (hook H1) = set of (path, element) of reachable identifiable elements, no duplicate paths, lookups return that very element, path() = concatenation of ancestors' item names.",
@@ -141,7 +141,7 @@ PROPS = {
     "C05": {
         "property_module": "AutosarVerif.Properties.C05",
         "modules": ["AutosarVerif.Properties.C05"],
-        "closure": ['AutosarVerif.Properties.C05', 'AutosarVerif.Lemmas.World', 'AutosarVerif.Lemmas.WorldOps'],
+        "closure": ['AutosarVerif.Properties.C05', 'AutosarVerif.Lemmas.World', 'AutosarVerif.Lemmas.WorldOps', 'AutosarVerif.Lemmas.IndexDefs', 'AutosarVerif.Lemmas.IndexTree', 'AutosarVerif.Lemmas.IdxFix', 'AutosarVerif.Lemmas.RemoveInternal', 'AutosarVerif.Lemmas.RangeSn', 'AutosarVerif.Lemmas.RenameEntries', 'AutosarVerif.Lemmas.IndexInv', 'AutosarVerif.Lemmas.IndexOps', 'AutosarVerif.Lemmas.IndexOps2', 'AutosarVerif.Lemmas.IndexOps3', 'AutosarVerif.Lemmas.IndexFileOps', 'AutosarVerif.Lemmas.IndexCData', 'AutosarVerif.Lemmas.IndexReach', 'AutosarVerif.Lemmas.IndexWitness', 'AutosarVerif.Lemmas.IndexBridge', 'AutosarVerif.Lemmas.NameWfCheck', 'AutosarVerif.Lemmas.NameWfReal', 'AutosarVerif.Lemmas.RefsDefs', 'AutosarVerif.Lemmas.RefsMap', 'AutosarVerif.Lemmas.RefsTree', 'AutosarVerif.Lemmas.RefsInv', 'AutosarVerif.Lemmas.RefsOpsA', 'AutosarVerif.Lemmas.RefsOpsB', 'AutosarVerif.Lemmas.RefsReach', 'AutosarVerif.Lemmas.RefsBridge', 'AutosarVerif.Lemmas.RenameRefsMap', 'AutosarVerif.Lemmas.RefWfCheck', 'AutosarVerif.Lemmas.RefWfReal', 'AutosarVerif.Lemmas.RefsWitness'],
         "scenario": "world",
         "scenario_args": ['--prop', 'C05'],
         "rule": 'operation histories on the real library (PROTOCOL.md): `reset`, a template build (packages from the name universe a a1 a10 a1b a2 pkg1 pkg10 b, nested packages, ELEMENTS with several kinds, mixed content, references to existing / dangling / future paths), then 20-60 (thorough up to 200) weighted random requests with mostly-valid and deliberately invalid arguments (stale handles, wrong kinds, bad positions, duplicates, descendants as destination), `dump` after every state-changing request; kinds basic / sort / copy / files. Every request is answered by the real library and by the Lean world model and compared verbatim (dumps include every parent field, attribute, value, comment, local file set, the whole path index and every key of the reverse reference map via hook H1); a history is cut at the first request kind the model does not cover (file-set operations, moves between models) — counted in coverage.correspondence. The direct oracle of the property is evaluated on the real library after every request; failing histories are shrunk. Non-trivial = distinct request line.' + " Oracle: " + 'every key of the reverse map (hook H1): upgradable reachable referrers = reachable reference elements with that text, each once; check_references = references whose get_reference_target fails.',
